@@ -1,0 +1,278 @@
+//go:build verif
+
+package pppoe
+
+// Verification hooks for the PPPoE access concentrator (build tag `verif` only;
+// add-only, no behaviour change).  Written for /verif property C04 and meant to
+// be reused by C09 (no packet crashes the gateway) and C16 (termination releases
+// everything).
+//
+// API
+//
+//	VerifNewServer(cfg, ifaceName, mac, sink) (*Server, error)
+//	    Builds a Server exactly like NewServerWithInterface (zap.NewNop logger,
+//	    cfg.Interface defaults to ifaceName, server MAC = mac) and installs an
+//	    in-memory rawSocket instead of the AF_PACKET one, so Start() is never
+//	    needed.  Every frame the server emits is handed to sink as a VerifFrame
+//	    (a private copy of the complete Ethernet frame given to rawSocket.send,
+//	    plus the dstMAC/etherType arguments of that call).  sink may be nil.
+//	    sink is called synchronously from whichever goroutine sends (note that
+//	    handlePADR sends the first LCP Configure-Request from `go
+//	    startLCPNegotiation`): it must be safe for concurrent use.
+//
+//	(*Server).VerifHandleDiscovery(srcMAC, payload)   = handleDiscovery (payload = bytes after the 14-byte Ethernet header)
+//	(*Server).VerifHandleSession(srcMAC, payload)     = handleSession
+//	(*Server).VerifHandleFrame(frame)
+//	    One iteration of receiveLoop's body on a complete Ethernet frame: length
+//	    check, destination filter (broadcast or server MAC), dispatch on the
+//	    EtherType.  Like receiveLoop it passes SUB-SLICES of frame to the handlers
+//	    (srcMAC = frame[6:12]); handlers keep/modify those slices, so pass a fresh
+//	    buffer per call unless you want receiveLoop's buffer reuse.
+//
+//	(*Server).VerifReceiveLoop(ctx)   runs the real receiveLoop (blocking) on the in-memory socket
+//	(*Server).VerifInject(frame)      queues a frame for that loop (copied into the loop's own 1522-byte buffer by recv)
+//	(*Server).VerifCloseRx()          makes recv fail from now on; cancel ctx first, then call this, and the loop returns
+//
+//	(*Server).VerifSessions() []VerifSession          read-only copies, sorted by session id
+//	(*Server).VerifSession(id) (VerifSession, bool)
+//	(*Server).VerifPool() VerifPool                   copy of the client address pool (free list, allocations by RADIUS session id)
+//	(*Server).VerifCleanupExpired(timeout) int        = sessions.CleanupExpired(timeout), i.e. one tick of cleanupLoop
+//	(*Server).VerifServerMAC() net.HardwareAddr
+
+import (
+	"context"
+	"encoding/binary"
+	"errors"
+	"net"
+	"sort"
+	"sync"
+	"sync/atomic"
+	"time"
+
+	"go.uber.org/zap"
+)
+
+// VerifFrame is one frame handed to rawSocket.send.
+type VerifFrame struct {
+	Dst       net.HardwareAddr // dstMAC argument of send (copy)
+	EtherType uint16           // etherType argument of send
+	Frame     []byte           // complete Ethernet frame (copy)
+}
+
+// VerifSink receives every emitted frame.
+type VerifSink func(VerifFrame)
+
+// verifSocket is the in-memory rawSocket.
+type verifSocket struct {
+	sink   VerifSink
+	rx     chan []byte
+	done   chan struct{}
+	closed sync.Once
+}
+
+var errVerifRxClosed = errors.New("verif: rx closed")
+
+func (v *verifSocket) open(iface string, etherType uint16) error { return nil }
+func (v *verifSocket) close() error                              { return nil }
+
+func (v *verifSocket) recv(buf []byte) (int, error) {
+	select {
+	case <-v.done:
+		return 0, errVerifRxClosed
+	default:
+	}
+	select {
+	case f := <-v.rx:
+		return copy(buf, f), nil
+	case <-v.done:
+		return 0, errVerifRxClosed
+	}
+}
+
+func (v *verifSocket) send(iface string, dstMAC net.HardwareAddr, etherType uint16, data []byte) error {
+	if v.sink != nil {
+		v.sink(VerifFrame{
+			Dst:       append(net.HardwareAddr(nil), dstMAC...),
+			EtherType: etherType,
+			Frame:     append([]byte(nil), data...),
+		})
+	}
+	return nil
+}
+
+// VerifNewServer builds a server bound to an in-memory raw socket.
+func VerifNewServer(cfg ServerConfig, ifaceName string, mac net.HardwareAddr, sink VerifSink) (*Server, error) {
+	if cfg.Interface == "" {
+		cfg.Interface = ifaceName
+	}
+	ifc := &net.Interface{
+		Index:        1,
+		MTU:          1500,
+		Name:         ifaceName,
+		HardwareAddr: append(net.HardwareAddr(nil), mac...),
+		Flags:        net.FlagUp | net.FlagBroadcast | net.FlagMulticast,
+	}
+	s, err := NewServerWithInterface(cfg, zap.NewNop(), ifc)
+	if err != nil {
+		return nil, err
+	}
+	s.socket = &verifSocket{sink: sink, rx: make(chan []byte, 16), done: make(chan struct{})}
+	return s, nil
+}
+
+// VerifHandleDiscovery delivers a PPPoE discovery payload (after the Ethernet header).
+func (s *Server) VerifHandleDiscovery(srcMAC net.HardwareAddr, payload []byte) {
+	s.handleDiscovery(srcMAC, payload)
+}
+
+// VerifHandleSession delivers a PPPoE session payload (after the Ethernet header).
+func (s *Server) VerifHandleSession(srcMAC net.HardwareAddr, payload []byte) {
+	s.handleSession(srcMAC, payload)
+}
+
+// VerifHandleFrame performs receiveLoop's per-frame processing on one complete Ethernet frame.
+func (s *Server) VerifHandleFrame(frame []byte) {
+	n := len(frame)
+	if n < 14 {
+		return
+	}
+	dstMAC := net.HardwareAddr(frame[0:6])
+	srcMAC := net.HardwareAddr(frame[6:12])
+	etherType := binary.BigEndian.Uint16(frame[12:14])
+	if !isBroadcastMAC(dstMAC) && dstMAC.String() != s.serverMAC.String() {
+		return
+	}
+	switch etherType {
+	case EtherTypePPPoEDiscovery:
+		s.handleDiscovery(srcMAC, frame[14:n])
+	case EtherTypePPPoESession:
+		s.handleSession(srcMAC, frame[14:n])
+	}
+}
+
+// VerifReceiveLoop runs the real receive loop on the in-memory socket until ctx
+// is cancelled AND recv returns (see VerifCloseRx).
+func (s *Server) VerifReceiveLoop(ctx context.Context) { s.receiveLoop(ctx) }
+
+// VerifInject queues one frame for VerifReceiveLoop.
+func (s *Server) VerifInject(frame []byte) {
+	if v, ok := s.socket.(*verifSocket); ok {
+		v.rx <- append([]byte(nil), frame...)
+	}
+}
+
+// VerifCloseRx makes the in-memory socket's recv return an error from now on.
+func (s *Server) VerifCloseRx() {
+	if v, ok := s.socket.(*verifSocket); ok {
+		v.closed.Do(func() { close(v.done) })
+	}
+}
+
+// VerifServerMAC returns the server's MAC.
+func (s *Server) VerifServerMAC() net.HardwareAddr {
+	return append(net.HardwareAddr(nil), s.serverMAC...)
+}
+
+// VerifSession is a read-only copy of one session.
+type VerifSession struct {
+	ID            uint16
+	ClientMAC     net.HardwareAddr
+	State         SessionState
+	Username      string
+	Authenticated bool
+	AuthMethod    string
+	ClientIP      net.IP
+	ServerIP      net.IP
+	MRU           uint16
+	PeerMRU       uint16
+	MagicNumber   uint32
+	PeerMagic     uint32
+	LCPIdentifier uint8
+	AcctSessionID string // Session.SessionID (RADIUS accounting id, key of the address pool)
+	Class         []byte
+	CreatedAt     time.Time
+	EstablishedAt time.Time
+	LastActivity  time.Time
+	BytesIn       uint64
+	BytesOut      uint64
+	PacketsIn     uint64
+	PacketsOut    uint64
+}
+
+func verifSnap(x *Session) VerifSession {
+	x.mu.RLock()
+	defer x.mu.RUnlock()
+	return VerifSession{
+		ID:            x.ID,
+		ClientMAC:     append(net.HardwareAddr(nil), x.ClientMAC...),
+		State:         x.State,
+		Username:      x.Username,
+		Authenticated: x.Authenticated,
+		AuthMethod:    x.AuthMethod,
+		ClientIP:      append(net.IP(nil), x.ClientIP...),
+		ServerIP:      append(net.IP(nil), x.ServerIP...),
+		MRU:           x.MRU,
+		PeerMRU:       x.PeerMRU,
+		MagicNumber:   x.MagicNumber,
+		PeerMagic:     x.PeerMagic,
+		LCPIdentifier: x.LCPIdentifier,
+		AcctSessionID: x.SessionID,
+		Class:         append([]byte(nil), x.Class...),
+		CreatedAt:     x.CreatedAt,
+		EstablishedAt: x.EstablishedAt,
+		LastActivity:  x.LastActivity,
+		BytesIn:       atomic.LoadUint64(&x.BytesIn),
+		BytesOut:      atomic.LoadUint64(&x.BytesOut),
+		PacketsIn:     atomic.LoadUint64(&x.PacketsIn),
+		PacketsOut:    atomic.LoadUint64(&x.PacketsOut),
+	}
+}
+
+// VerifSessions returns copies of all sessions sorted by id.
+func (s *Server) VerifSessions() []VerifSession {
+	all := s.sessions.GetAllSessions()
+	out := make([]VerifSession, 0, len(all))
+	for _, x := range all {
+		out = append(out, verifSnap(x))
+	}
+	sort.Slice(out, func(i, j int) bool { return out[i].ID < out[j].ID })
+	return out
+}
+
+// VerifSession returns a copy of one session.
+func (s *Server) VerifSession(id uint16) (VerifSession, bool) {
+	x := s.sessions.GetSession(id)
+	if x == nil {
+		return VerifSession{}, false
+	}
+	return verifSnap(x), true
+}
+
+// VerifPool is a copy of the client address pool.
+type VerifPool struct {
+	Configured bool
+	Available  []net.IP
+	Allocated  map[string]net.IP // RADIUS session id -> address
+}
+
+// VerifPool returns a copy of the pool (not synchronised: the pool itself has
+// no lock; call it from the goroutine that drives the handlers).
+func (s *Server) VerifPool() VerifPool {
+	p := VerifPool{Allocated: map[string]net.IP{}}
+	if s.clientIPPool == nil {
+		return p
+	}
+	p.Configured = true
+	for _, ip := range s.clientIPPool.available {
+		p.Available = append(p.Available, append(net.IP(nil), ip...))
+	}
+	for k, ip := range s.clientIPPool.allocated {
+		p.Allocated[k] = append(net.IP(nil), ip...)
+	}
+	return p
+}
+
+// VerifCleanupExpired runs one tick of the cleanup loop's work.
+func (s *Server) VerifCleanupExpired(timeout time.Duration) int {
+	return s.sessions.CleanupExpired(timeout)
+}
